@@ -41,13 +41,15 @@ type world struct {
 	subjects []string            // alive subjects, creation order
 	dids     map[string][]string // subject -> DIDs
 	v1dids   []string
-	kaDID    string // a DID with a key-agreement key
-	kids     []string                 // every verification method id ever seen
+	kaDID    string                      // a DID with a key-agreement key
+	kids     []string                    // every verification method id ever seen
 	pub      map[string]crypto.PublicKey // kid -> published key
-	vcs      []json.RawMessage        // issued credentials (as returned)
+	vcs      []json.RawMessage           // issued credentials (as returned)
 	vcIDs    []string
+	vcIssuer []string
 	revoked  int
 	wallet   int
+	vps      int
 	jwes     []string
 	jwts     []string
 	dead     int
@@ -148,21 +150,21 @@ func init() {
 
 func jwsHeaderShapes() map[string]map[string]any {
 	return map[string]map[string]any{
-		"plain":          {},
-		"typ":            {"typ": "JWT", "cty": "x/y"},
-		"jwk-public-ec":  {"jwk": foreign.ecPub},
-		"jwk-PRIVATE-ec": {"jwk": foreign.ecPriv},
-		"jwk-PRIVATE-rsa": {"jwk": foreign.rsaPriv},
+		"plain":               {},
+		"typ":                 {"typ": "JWT", "cty": "x/y"},
+		"jwk-public-ec":       {"jwk": foreign.ecPub},
+		"jwk-PRIVATE-ec":      {"jwk": foreign.ecPriv},
+		"jwk-PRIVATE-rsa":     {"jwk": foreign.rsaPriv},
 		"jwk-PRIVATE-ed25519": {"jwk": foreign.edPriv},
-		"jwk-oct":        {"jwk": foreign.oct},
-		"jwk-x25519":     {"jwk": foreign.x25519},
-		"jwk-string":     {"jwk": "not a key"},
-		"kid-override":   {"kid": "did:web:attacker.example#0"},
-		"alg-none":       {"alg": "none"},
-		"alg-hs256":      {"alg": "HS256"},
-		"b64-false":      {"b64": false, "crit": []string{"b64"}},
-		"x5c":            {"x5c": []string{"AAAA"}},
-		"nested":         {"a": map[string]any{"b": []any{1, "x", nil}}},
+		"jwk-oct":             {"jwk": foreign.oct},
+		"jwk-x25519":          {"jwk": foreign.x25519},
+		"jwk-string":          {"jwk": "not a key"},
+		"kid-override":        {"kid": "did:web:attacker.example#0"},
+		"alg-none":            {"alg": "none"},
+		"alg-hs256":           {"alg": "HS256"},
+		"b64-false":           {"b64": false, "crit": []string{"b64"}},
+		"x5c":                 {"x5c": []string{"AAAA"}},
+		"nested":              {"a": map[string]any{"b": []any{1, "x", nil}}},
 	}
 }
 
@@ -185,7 +187,18 @@ func stateChangingOps() []op {
 				if json.Unmarshal(b, &m) == nil {
 					id, _ = m["id"].(string)
 				}
+				if id == "" && len(b) > 2 && b[0] == '"' { // JWT credential: the id is the jti claim
+					if parts := strings.Split(strings.Trim(string(b), "\"\n"), "."); len(parts) == 3 {
+						if pb, err := base64.RawURLEncoding.DecodeString(parts[1]); err == nil {
+							var claims map[string]any
+							if json.Unmarshal(pb, &claims) == nil {
+								id, _ = claims["jti"].(string)
+							}
+						}
+					}
+				}
 				w.vcIDs = append(w.vcIDs, id)
+				w.vcIssuer = append(w.vcIssuer, did)
 			} else {
 				w.problems = append(w.problems, fmt.Sprintf("issue %s/%s -> %d %s", method, format, st, trunc(b)))
 			}
@@ -201,20 +214,26 @@ func stateChangingOps() []op {
 				vcs = []json.RawMessage{}
 			}
 			signer := w.did("web")
-			if len(w.vcs) > 0 {
-				var m map[string]any
-				if json.Unmarshal(w.vcs[len(w.vcs)-1], &m) == nil {
-					if s, ok := m["issuer"].(string); ok {
-						signer = s
+			if len(w.vcIssuer) > 0 {
+				signer = w.vcIssuer[len(w.vcIssuer)-1]
+				// present what this signer holds: only its own (self-issued) credentials
+				var own []json.RawMessage
+				for i, vc := range w.vcs {
+					if w.vcIssuer[i] == signer {
+						own = append(own, vc)
 					}
-				} else {
-					signer = w.did("nuts")
+				}
+				vcs = own
+				if len(vcs) > 2 {
+					vcs = vcs[len(vcs)-2:]
 				}
 			}
 			st, b := w.n.call("POST", w.n.in("/internal/vcr/v2/holder/vp"), map[string]any{"verifiableCredentials": vcs, "signerDID": signer, "format": format,
 				"challenge": "verif-challenge", "domain": "verif.example"})
 			if st != 200 {
 				w.problems = append(w.problems, fmt.Sprintf("present %s -> %d %s", format, st, trunc(b)))
+			} else {
+				w.vps++
 			}
 		}
 	}
@@ -474,7 +493,8 @@ func TestVerifC03Ops(t *testing.T) {
 	r.Bound("state_changing_operations", len(ops))
 	r.Bound("jws_header_shapes", len(jwsHeaderShapes()))
 	selfTest(t, r)
-	var totalReq, totalFiles, totalBytes, totalCanaries, totalKeys, redundant int64
+	var totalReq, totalFiles, totalBytes, totalCanaries, totalKeys, redundant, issued, presented int64
+	judged := map[string]bool{}
 	sawSignature := false
 	sys := space.System[int]{
 		MaxDepth: depth,
@@ -500,36 +520,7 @@ func TestVerifC03Ops(t *testing.T) {
 			}
 			return out
 		},
-		Canon: func(inst any) string {
-			w := inst.(*c03Inst).w
-			// what the node holds, structurally (identifiers are random): subjects with their number of DIDs, keys, credentials by kind
-			var subj []string
-			for _, s := range w.subjects {
-				nk := 0
-				for _, d := range w.dids[s] {
-					for _, k := range w.kids {
-						if strings.HasPrefix(k, d+"#") {
-							nk++
-						}
-					}
-				}
-				subj = append(subj, fmt.Sprintf("s(%d dids,%d keys)", len(w.dids[s]), nk))
-			}
-			kinds := []string{}
-			for _, vc := range w.vcs {
-				k := "ldp"
-				if len(vc) > 0 && vc[0] == '"' {
-					k = "jwt"
-				}
-				iss := "web"
-				if !strings.Contains(string(vc), "did:web:") {
-					iss = "nuts"
-				}
-				kinds = append(kinds, k+"/"+iss)
-			}
-			_, files, _ := keyDirCanaries(filepath.Join(w.n.dataDir, "crypto"))
-			return fmt.Sprintf("%v|v1=%d|vcs=%v|revoked=%d|wallet=%d|jwe=%d|dead=%d|keyfiles=%d", subj, len(w.v1dids), kinds, w.revoked, w.wallet, len(w.jwes), w.dead, len(files))
-		},
+		Canon: func(inst any) string { return canonOf(inst.(*c03Inst).w) },
 		Invariant: func(inst any, hist []int) {
 			ci := inst.(*c03Inst)
 			w := ci.w
@@ -543,7 +534,15 @@ func TestVerifC03Ops(t *testing.T) {
 			}
 			key := strings.Join(names, " ; ")
 			r.Eval(key)
+			judged[canonOf(w)] = true
+			issued += int64(len(w.vcs))
+			presented += int64(w.vps)
 			binding := battery(w)
+			if w.n.wedged() {
+				// not a verdict of this property: the node stopped answering; what was answered and written so far is still scanned
+				r.Observation("node-stopped-answering", map[string]any{"history": names, "requests_answered": w.n.requests})
+				r.NotExhaustive("a node stopped answering during the battery (history recorded under observations)")
+			}
 			cs, files, err := keyDirCanaries(filepath.Join(w.n.dataDir, "crypto"))
 			if err != nil {
 				t.Fatalf("harness: cannot derive canaries: %v", err)
@@ -562,7 +561,7 @@ func TestVerifC03Ops(t *testing.T) {
 				r.Violation("C03|ops|canary|"+h.Channel+"|"+h.Form, fmt.Sprintf("private key material of %s (%s) found in %s after [%s]", h.Key, h.Form, h.Channel, key), map[string]any{"history": names})
 			}
 			for _, b := range binding {
-				cls := strings.SplitN(b, ":", 2)[0]
+				cls := strings.SplitN(strings.SplitN(b, ":", 2)[0], "/", 2)[0] // oracle clause | entry point (without the header shape)
 				r.Violation("C03|ops|binding|"+cls, b+" after ["+key+"]", map[string]any{"history": names})
 			}
 			if len(w.pub) > 0 {
@@ -595,8 +594,10 @@ func TestVerifC03Ops(t *testing.T) {
 		return
 	}
 	res := space.BFS(sys)
-	r.States(res.States - redundant)
+	r.States(int64(len(judged)))
 	r.Transitions(res.Transitions - redundant)
+	r.AddExtra("credentials_issued", issued)
+	r.AddExtra("presentations_created", presented)
 	r.Bound("depth_reached", res.MaxDepth)
 	r.AddExtra("http_requests", totalReq)
 	r.AddExtra("data_files_scanned", totalFiles)
@@ -649,4 +650,35 @@ func selfTest(t *testing.T, r *ev.Run) {
 		t.Fatalf("harness: log capture is blind (%d bytes)", len(logs))
 	}
 	r.Bound("canary_forms_per_key", len(forms))
+}
+
+// canonOf: what the node holds, structurally (identifiers are random).
+func canonOf(w *world) string {
+	// what the node holds, structurally (identifiers are random): subjects with their number of DIDs, keys, credentials by kind
+	var subj []string
+	for _, s := range w.subjects {
+		nk := 0
+		for _, d := range w.dids[s] {
+			for _, k := range w.kids {
+				if strings.HasPrefix(k, d+"#") {
+					nk++
+				}
+			}
+		}
+		subj = append(subj, fmt.Sprintf("s(%d dids,%d keys)", len(w.dids[s]), nk))
+	}
+	kinds := []string{}
+	for i, vc := range w.vcs {
+		k := "ldp"
+		if len(vc) > 0 && vc[0] == '"' {
+			k = "jwt"
+		}
+		iss := "web"
+		if !strings.HasPrefix(w.vcIssuer[i], "did:web:") {
+			iss = "nuts"
+		}
+		kinds = append(kinds, k+"/"+iss)
+	}
+	_, files, _ := keyDirCanaries(filepath.Join(w.n.dataDir, "crypto"))
+	return fmt.Sprintf("%v|v1=%d|vcs=%v|revoked=%d|wallet=%d|jwe=%d|dead=%d|keyfiles=%d", subj, len(w.v1dids), kinds, w.revoked, w.wallet, len(w.jwes), w.dead, len(files))
 }
